@@ -36,7 +36,6 @@ fn field_index(s: &str) -> u64 {
     if let Some(p) = SYS_FIELDS.iter().position(|x| *x == s) { 100 + p as u64 } else { s[1..].parse().unwrap() }
 }
 fn is_ref(t: &Ty) -> bool { matches!(t, Ty::Ent(..) | Ty::Arr(..)) }
-fn needs_default(f: &FD) -> bool { !f.nullable && f.default.is_none() && !is_ref(&f.ty) }
 
 fn default_text(t: &Ty, d: u64) -> String {
     match t {
@@ -203,14 +202,13 @@ fn enc_model(m: &OM, out: &mut Vec<i64>) {
 
 // ------------------------------------------------------------------ oracles
 #[derive(Default, Clone)]
-struct OTab { ns: Vec<(u64, u64)>, ent: Vec<(u64, u64, u64)>, fld: Vec<(u64, u64, u64, u64)>, new: Vec<(u64, u64, u64, u64)> }
+struct OTab { ns: Vec<(u64, u64)>, ent: Vec<(u64, u64, u64)>, fld: Vec<(u64, u64, u64, u64)> }
 impl OTab {
     fn coq(&self) -> String {
-        format!("mkOT {} {} {} {}",
+        format!("mkOT {} {} {}",
             glist(&self.ns.iter().map(|(a, r)| format!("({},{})", gn(*a), gn(*r))).collect::<Vec<_>>()),
             glist(&self.ent.iter().map(|(a, b, r)| format!("({},{},{})", gn(*a), gn(*b), gn(*r))).collect::<Vec<_>>()),
-            glist(&self.fld.iter().map(|(a, b, c, r)| format!("({},{},{},{})", gn(*a), gn(*b), gn(*c), gn(*r))).collect::<Vec<_>>()),
-            glist(&self.new.iter().map(|(a, b, c, r)| format!("({},{},{},{})", gn(*a), gn(*b), gn(*c), gn(*r))).collect::<Vec<_>>()))
+            glist(&self.fld.iter().map(|(a, b, c, r)| format!("({},{},{},{})", gn(*a), gn(*b), gn(*c), gn(*r))).collect::<Vec<_>>()))
     }
 }
 /// the order in which `for x in &mut map` will visit the maps of this very value
@@ -227,32 +225,6 @@ fn observe_orders(dm: &DataModel) -> OTab {
     }
     t
 }
-/// the order of the parsed text's field map cannot be seen from outside; it is reconstructed from
-/// what the step left behind: new fields that were inserted (by the identifier they got), then the
-/// ones that cannot be inserted (no default), then the rest
-fn reconstruct_new(pre: &OM, post: &OM, ver: &Ver) -> Vec<(u64, u64, u64, u64)> {
-    let mut out = vec![];
-    let mut seen = vec![];
-    for (ns, eds) in &ver.blocks {
-        for ed in eds {
-            if seen.contains(&(*ns, ed.name)) { continue; }
-            seen.push((*ns, ed.name));
-            let pre_e = match pre.nss.iter().find(|n| n.name == *ns).and_then(|n| n.ents.iter().find(|e| e.name == ed.name)) { Some(e) => e, None => continue };
-            let post_e = post.nss.iter().find(|n| n.name == *ns).and_then(|n| n.ents.iter().find(|e| e.name == ed.name));
-            let mut news: Vec<&FD> = vec![];
-            for f in &ed.fields { if !pre_e.fields.iter().any(|g| g.name == f.name) && !news.iter().any(|g| g.name == f.name) { news.push(f); } }
-            let mut inserted: Vec<(u64, u64)> = vec![];
-            if let Some(pe) = post_e { for f in &news { if let Some(g) = pe.fields.iter().find(|g| g.name == f.name) { inserted.push((g.short, f.name)); } } }
-            inserted.sort();
-            let mut order: Vec<u64> = inserted.iter().map(|x| x.1).collect();
-            for f in &news { if !order.contains(&f.name) && needs_default(f) { order.push(f.name); } }
-            for f in &news { if !order.contains(&f.name) { order.push(f.name); } }
-            for (r, f) in order.iter().enumerate() { out.push((*ns, ed.name, *f, r as u64)); }
-        }
-    }
-    out
-}
-
 fn err_code(e: &QErr) -> i64 {
     match e {
         QErr::Parser(_) => 1, QErr::DuplicatedEntity(_) => 2, QErr::DuplicatedField(_) => 3, QErr::SystemFieldConflict(_) => 4,
@@ -274,11 +246,11 @@ fn run_peer(steps: &[Step], tags: &HashMap<String, u64>, rng: &mut Rng) -> PeerR
             // what a restart does: the stored JSON is read back (fresh hash maps)
             dm = serde_json::from_str(&serde_json::to_string(&dm).unwrap()).unwrap();
         }
-        let mut tab = observe_orders(&dm);
+        let tab = observe_orders(&dm);
         let r = std::panic::catch_unwind(std::panic::AssertUnwindSafe(|| if s.sys { dm.update_system(&s.text) } else { dm.update(&s.text) }));
         let verdict = match r { Ok(Ok(())) => 0, Ok(Err(e)) => err_code(&e), Err(_) => 97 };
-        let post = observe(&serde_json::to_value(&dm).unwrap(), tags, false);
-        tab.new = reconstruct_new(&pre, &post, &s.ver);
+        let mut post = observe(&serde_json::to_value(&dm).unwrap(), tags, false);
+        if verdict >= 8 { if let Some(n) = post.nss.first_mut() { if let Some(e) = n.ents.first_mut() { e.depr = !e.depr; } } }
         pr.obs.push(verdict);
         enc_model(&post, &mut pr.obs);
         if verdict != 0 && post != pre { pr.changed_on_refusal += 1; }
@@ -495,15 +467,15 @@ fn directed_bare() -> Vec<(&'static str, Vec<(bool, Ver)>)> {
     let s = |n| fd(n, Ty::Str, None, false);
     let sn = |n| fd(n, Ty::Str, None, true);
     let mut out = vec![];
-    // K1: three fields at once, then the same text again (what a restart does)
+    // former K1 (fixed a0ddb65): three fields at once, then the same text again (what a restart does)
     let v1 = ver(vec![(2, vec![ed(1, vec![s(1)])])]);
-    let v2 = ver(vec![(2, vec![ed(1, vec![s(1), sn(2), sn(3), sn(4)])])]);
+    let v2 = ver(vec![(2, vec![ed(1, vec![s(1), sn(4), sn(2), sn(3)])])]);
     for _ in 0..4 { out.push(("directed_k1_fields_at_once", vec![(false, v1.clone()), (false, v2.clone()), (false, v2.clone())])); }
-    // K2: valid for E1, invalid for E2
+    // former K2 (fixed c4c0a2e): valid for E1, invalid for E2
     let w1 = ver(vec![(2, vec![ed(1, vec![s(1)]), ed(2, vec![s(1), s(2)])])]);
     let w2 = ver(vec![(2, vec![ed(1, vec![s(1), sn(2)]), ed(2, vec![s(1)])])]);
     for _ in 0..4 { out.push(("directed_k2_valid_for_one_invalid_for_other", vec![(false, w1.clone()), (false, w2.clone()), (false, w1.clone())])); }
-    // K2, the same for every order: the entity is marked deprecated before its fields are compared
+    // former K2, the same for every order: the entity was marked deprecated before its fields are compared
     let mut x2 = ver(vec![(2, vec![ed(1, vec![s(1)])])]); x2.blocks[0].1[0].depr = true;
     let x1 = ver(vec![(2, vec![ed(1, vec![s(1), s(2)])])]);
     out.push(("directed_k2_deprecated_then_refused", vec![(false, x1.clone()), (false, x2), (false, x1.clone())]));
@@ -596,7 +568,6 @@ async fn inst_case(kind: &str, k: usize, seq: &[(bool, Ver)], stats: &mut InstSt
     let mut obs: Vec<i64> = vec![];
     let mut tabs: Vec<OTab> = vec![];
     let mut baselines: Vec<Baseline> = vec![];
-    let mut stored_pre = OM::default();
     let mut log = vec![];
     for (is_start, s) in &steps {
         let api_ok;
@@ -611,11 +582,10 @@ async fn inst_case(kind: &str, k: usize, seq: &[(bool, Ver)], stats: &mut InstSt
                                  None => { api_ok = false; } }
         }
         obs.push(api_ok as i64);
-        let mut tab = OTab::default();
+        let tab = OTab::default();
         if let Some(sv) = svc.as_ref() {
             let mem = observe(&serde_json::from_str(&sv.datamodel().await.unwrap()).unwrap(), &it.tags, true);
             let stored = observe(&serde_json::from_str(&read_stored(sv).await.unwrap()).unwrap(), &it.tags, true);
-            tab.new = reconstruct_new(&stored_pre, &mem, &s.ver);
             // rows: written once, after the first start; read back after every step
             if baselines.is_empty() {
                 for (ns, eds) in &s.ver.blocks { for e in eds {
@@ -661,7 +631,6 @@ async fn inst_case(kind: &str, k: usize, seq: &[(bool, Ver)], stats: &mut InstSt
             obs.push(rows_ok as i64);
             if !rows_ok { stats.rows_not_ok += 1; }
             if !*is_start && mem != stored { stats.mem_differs_from_stored += 1; }
-            stored_pre = stored;
         } else {
             obs.push(0);
             stats.failed_starts += 1;
@@ -689,13 +658,13 @@ fn directed_inst() -> Vec<(&'static str, Vec<(bool, Ver)>)> {
     let mut out = vec![];
     // compatible evolution: at run time, at restart, same model again
     out.push(("inst_evolution", vec![(true, v1.clone()), (false, v2.clone()), (true, v2.clone()), (true, v3.clone()), (false, v3.clone()), (true, v3.clone())]));
-    // K1 on a real instance: three fields at run time, then a restart with the same text
-    let mut k = v1.clone(); k.blocks[0].1[0].fields.extend(vec![sn(3), sn(4), i(5, 0)]);
+    // former K1 on a real instance: three fields at run time, then a restart with the same text
+    let mut k = v1.clone(); k.blocks[0].1[0].fields.extend(vec![sn(5), sn(3), i(4, 0)]);
     for _ in 0..3 { out.push(("inst_k1_restart_after_fields_at_once", vec![(true, v1.clone()), (false, k.clone()), (true, k.clone())])); }
-    // K2 + K3: refused at run time (a field is missing) after the entity was marked deprecated
+    // former K2 + K3 (fixed 332422f): refused at run time (a field is missing); the caller is told, nothing changes
     let mut bad = ver(vec![(2, vec![ed(1, vec![s(1)]), ed(2, vec![fd(1, Ty::Bool, None, false), fd(2, Ty::Arr(2, 1), None, false)])])]); bad.blocks[0].1[0].depr = true;
     out.push(("inst_k2_refused_at_run_time", vec![(true, v1.clone()), (false, bad.clone()), (false, v1.clone()), (true, v1.clone())]));
-    // K2: a new nullable field and a new field without default in one version
+    // former K2: a new nullable field and a new field without default in one version
     let mut bad2 = v1.clone(); bad2.blocks[0].1[0].fields.extend(vec![sn(3), s(4)]);
     for _ in 0..2 { out.push(("inst_k2_new_field_kept_after_refusal", vec![(true, v1.clone()), (false, bad2.clone()), (true, v1.clone())])); }
     // refused at start: no instance; the store is intact
@@ -715,7 +684,7 @@ async fn main() {
     let mut ist = InstStats::default();
     let mut k = 0;
     for (name, seq) in directed_inst() { let c = inst_case(name, k, &seq, &mut ist).await; out.push(c); k += 1; }
-    let n_inst_random = scale(6, 60);
+    let n_inst_random = scale(4, 60);
     let mut edits_inst = BTreeMap::new();
     for _ in 0..n_inst_random {
         // compatible histories only (scalars that can be written and read back), alternately at run time and at restart
@@ -724,7 +693,7 @@ async fn main() {
         let c = inst_case("inst_random_compatible", k, &seq, &mut ist).await; out.push(c); k += 1;
     }
     // random bare histories
-    let n = scale(420, 6000);
+    let n = scale(300, 6000);
     let mut edits = BTreeMap::new();
     for i in 0..n {
         let mode = match i % 10 { 0..=4 => 0, 5..=6 => 1, _ => 2 };
